@@ -288,6 +288,80 @@ CHECKS["C02"] = dict(
          + "Points where the declared string is undefined (division by zero, root of a negative number) are not compared. Jacobian functions are "
            "C03's concern. Regeneration (serial vs process pool, different hash seeds) covers 12 models in the quick tier, all in the thorough tier; files that are not byte-identical are compared functionally.")
 
+# ---- additions of the later session (DESIGN.md 0A.7): appended to the entries above -------------------------------------
+def _amend(pid, technique=None, text=None, note=None, note_replace=None):
+    c = CHECKS[pid]
+    if technique:
+        c["technique"] = c["technique"] + " + " + technique
+    if text:
+        c["text"] = c["text"] + "  " + text
+    if note_replace:
+        c["note"] = c["note"].replace(*note_replace)
+    if note:
+        c["note"] = c["note"] + " " + note
+
+
+_amend("C01",
+       technique="whole-network complex power balance recomputed from the devices' input data with the ACNetwork formulation (vh/ybus.py) and "
+                 "from an independent reading of PSS/E / MATPOWER source files (vh/srcread.py), PV -> PQ conversion observed per Newton "
+                 "iteration, all validated by TLC (Trace_PF)",
+       text="Every converged generated network and stock case must also balance a whole-network calculation that uses only the devices' "
+            "input values, ratings and bus nominal voltages (own per-unit conversion, nothing of the library's services, equation strings "
+            "or adders; tolerance 3 tol plus a per-bus bound on the library's 1e-8 series-impedance regularisation); shipped raw / m files "
+            "must balance the network an independent reader takes from the file; with PV.pv2pq = 1 and binding reactive limits converted "
+            "generators stay converted, deliver exactly their limit and the others sit at their set-point.",
+       note_replace=("PSS/E and MATPOWER inputs are solved (stock) but their parsing fidelity is C13's.",
+                     "The independent source reader models bus, load, fixed shunt, generator, branch and transformer records; switched shunts, "
+                     "dc lines and FACTS devices are not read independently (reactive balance skipped at those buses)."))
+_amend("C03",
+       technique="generated Jacobian functions of every shipped model against central differences of the declared equation strings "
+                 "(independent evaluator) on the TLC-enumerated argument lattice of C02, validated by TLC (Trace_PF, record modeljac)",
+       text="Model level: for all ~100 shipped models the executed <jname>_update functions, each value attributed to the (equation, variable) "
+            "pair the loaded index lists name, equal the difference quotient of that declared equation w.r.t. that variable wherever the "
+            "quotient is decided (two step sizes and forward / backward quotients agree), no pair without an entry has a non-zero quotient, "
+            "constant entries sit on the diagonal (10.7 k entries, 0.5 M decided points in the quick tier).",
+       note="The model-level clause is numeric (difference quotients), not symbolic; it does not differentiate through services, as the library "
+            "does not.")
+_amend("C09",
+       technique="definitions of iteration gating, limit adjustment at initialisation, the anti-windup iteration lock, the sorted limiter "
+                 "(sticky flags, n per ranking) and Delay / Average in time mode added to Discrete.tla, enumerated by TLC and replayed on the "
+                 "real classes",
+       text="Also: Discrete.check_iter_err over (niter, err, min_iter, err_tol) with absent arguments; Limiter / HardLimiter / AntiWindup "
+            "limit adjustment over component flag x model flag x side x is_init; anti-windup flags sticky from the fifth iteration; "
+            "SortedLimiter over three devices x two evaluations x n_select x gate; time-mode Delay / Average against the piecewise-linear "
+            "interpolant on monotone and repeated stamps (rewound stamps in time mode are a recorded finding).")
+_amend("C12",
+       technique="simulations paused after Toggle / Alter / group-name switching events, islands validated by TLC against the graph of the "
+                 "devices' statuses at that moment",
+       text="During simulation (ieee14_full): lines are taken out and put back by timed events of every kind, two at one instant included; "
+            "bus statuses re-written with their present value before initialisation must not cancel the propagation.")
+_amend("C13",
+       technique="independent readers of MATPOWER / PSS/E raw (rev. 32 / 33) / dyr source files (vh/srcread.py, nothing shared with andes/io), "
+                 "text-edited variants of the shipped raw files and generated MATPOWER cases; the library's solution must balance the network "
+                 "read from the file, dyr values must be carried by the device attached to the machine the record names; validated by TLC "
+                 "(Trace_CaseIO, record src)",
+       text="Independent reading of the source: every shipped raw / m file and variants that use the record fields the shipped files leave "
+            "at their defaults (branch-end shunts, metered end, fixed shunt, winding-2 turns ratio, phase shift, magnetizing admittance, "
+            "windings in kV, out-of-service records, another system base, three-winding impedances / taps / magnetizing; MATPOWER ratios, "
+            "phase shifters, bus shunts, several units on a bus, baseMVA other than 100) are read by the library and solved; the reported "
+            "voltages must balance the network the independent reader takes from the file; 14 dyr model layouts transcribed from the PSS/E "
+            "model documentation are compared value by value.",
+       note_replace=("Not decided: agreement of the PSS/E raw/dyr and MATPOWER parsers with an independent reading of the source files (needs a "
+                     "second parser).",
+                     "Not read independently: switched shunts, dc lines, FACTS devices, dyr models other than the 14 transcribed layouts "
+                     "(reported as NOTE, never as violation)."))
+_amend("C16",
+       technique="a network with isolated buses solved with every back-end under both ways of accumulating the Jacobian",
+       text="ieee14_island (two isolated buses): power flow and simulation with klu / umfpack / spsolve x ipadd 1 / 0 must agree.")
+_amend("C17",
+       technique="stability criterion re-evaluated from the stored trajectory of each run (rotor-angle spread of the in-service machines), "
+                 "clause UnstableRunReportedAsSuccess in Trace_TDSLoop",
+       text="Unstable disturbances that switch no branch (bus faults on SMIB, ieee14_full, kundur_full): a run during which the rotor-angle "
+            "criterion is violated at a stored step must not go on and report success.")
+_amend("C19",
+       technique="value lookups repeated after alter / set on the key field",
+       text="Lookups by field value follow the data: find_idx on u / name, alter / set, find_idx again on the same key.")
+
 NOT_APPLICABLE = [
     {"property_id": "C07", "reason": "numeric accuracy / convergence order against closed-form and matrix-exponential references: no "
                                      "discrete state to model and TLA+ cannot evaluate the transcendental reference (DESIGN.md 9)"},
